@@ -524,10 +524,56 @@ def _tokens(f, op):
     return set(_names_of(f, [op]).split(","))
 
 
+FACTS = {}
+
+
 def check_requires(prog, site_func, site, req):
     """re-verify the guard a reviewed reason relies on; returns (ok, how)."""
     from .patterns import cmp_sites, cmp_reject_relation, _SWAP
+    if isinstance(req, list):
+        hows = []
+        for r in req:
+            ok, how = check_requires(prog, site_func, site, r)
+            if not ok:
+                return False, how
+            hows.append(how)
+        return True, "; ".join(hows)
     kind = req.get("kind")
+    if kind == "fact":
+        fn = FACTS.get(req["name"])
+        if fn is None:
+            import importlib
+            importlib.import_module("wfstatic.rules." + req["name"].split(".")[0])
+            fn = FACTS.get(req["name"])
+        if fn is None:
+            return False, "unknown fact %s" % req["name"]
+        return fn(prog)
+    if kind == "dom-guard":
+        # the site lies behind the edge on which `lhs rel rhs` holds (a comparison in the site's own function)
+        from .patterns import _NEG
+        f = site_func
+        lhs, rhs, rel = req["lhs"], req["rhs"], req["rel"]
+
+        def has(tokens, want):
+            return any(want == x or want == x.lstrip(".") or want + "()" == x for x in tokens)
+        for cs in cmp_sites(f):
+            ta, tb = _tokens(f, cs["a"]), _tokens(f, cs["b"])
+            for sw in (False, True):
+                x, y = (tb, ta) if sw else (ta, tb)
+                if not (has(x, lhs) and has(y, rhs)):
+                    continue
+                op = _SWAP[cs["op"]] if sw else cs["op"]
+                for c in f.bool_checks_of_local(cs["local"]):
+                    edges = c["true_edges"] if op == rel else (c["false_edges"] if _NEG[op] == rel else [])
+                    if edges and f.must_cross([site["bb"]], cut_edges=edges):
+                        return True, "behind the edge where %s %s %s" % (lhs, rel, rhs)
+        return False, "the site is no longer behind a branch establishing %s %s %s" % (lhs, rel, rhs)
+    if kind == "callee-ok-nonempty":
+        # every Ok exit of the named function lies behind a rejecting is_empty() test
+        g = prog.funcs.get(req["func"])
+        if g is None:
+            return False, "function %s not found" % req["func"]
+        return check_requires(prog, site_func, site, {"kind": "pred-guard", "func": req["func"], "pred": "is_empty", "count": 1})
     if kind == "ok-edge-of":
         f = site_func
         edges = []
